@@ -1,3 +1,4 @@
+mod coord;
 mod digest;
 mod exec;
 mod gen;
@@ -5,7 +6,9 @@ mod gen2;
 mod model;
 mod oracle;
 mod oracle2;
+mod props;
 mod rng;
+mod worker;
 mod world;
 
 use digest::*;
@@ -66,6 +69,42 @@ fn main() {
             let n = to - from;
             println!("{n} runs, {} steps/run, {:.3} ms/run, violations {nv}, incomplete {incomplete}", steps / n.max(1), t.elapsed().as_secs_f64() * 1000.0 / n as f64);
         }
+        Some("worker") => {
+            let prop = &args[2];
+            let seed: u64 = args[3].parse().unwrap();
+            let from: u64 = args[4].parse().unwrap();
+            let to: u64 = args[5].parse().unwrap();
+            let w: usize = args[6].parse().unwrap();
+            let ncpu = std::thread::available_parallelism().map(|n| n.get()).unwrap_or(1);
+            simrt::pin_to_core(w % ncpu);
+            let st = worker::run_chunk(prop, seed, from, to, args.get(7).map(|s| s.as_str()));
+            println!("{}", serde_json::to_string(&st).unwrap());
+        }
+        Some("check") => {
+            let prop = args[2].clone();
+            let mut tier = std::env::var("VERIF_TIER").unwrap_or_else(|_| "quick".into());
+            let mut seed = std::env::var("VERIF_SEED").ok().and_then(|s| s.parse().ok()).unwrap_or(coord::DEFAULT_SEED);
+            let mut runs = None;
+            let mut family = None;
+            let mut workers = std::thread::available_parallelism().map(|n| n.get()).unwrap_or(4);
+            let mut budget = std::env::var("VERIF_BUDGET_S").ok().and_then(|s| s.parse().ok());
+            let mut i = 3;
+            while i < args.len() {
+                match args[i].as_str() {
+                    "--tier" => { tier = args[i + 1].clone(); i += 1; }
+                    "--seed" => { seed = args[i + 1].parse().unwrap(); i += 1; }
+                    "--runs" => { runs = Some(args[i + 1].parse().unwrap()); i += 1; }
+                    "--workers" => { workers = args[i + 1].parse().unwrap(); i += 1; }
+                    "--budget" => { budget = Some(args[i + 1].parse().unwrap()); i += 1; }
+                    "--family" => { family = Some(args[i + 1].clone()); i += 1; }
+                    "--replay" => { std::process::exit(coord::replay(&args[i + 1])); }
+                    x => { eprintln!("simcheck: unknown option {x}"); std::process::exit(2); }
+                }
+                i += 1;
+            }
+            std::process::exit(coord::check(coord::CheckArgs { prop, tier, seed, workers, runs, budget_s: budget, family }));
+        }
+        Some("replay") => std::process::exit(coord::replay(&args[2])),
         _ => {
             eprintln!("usage: simcheck one <family> <seed> | batch <family> <from> <to>");
             std::process::exit(2);
